@@ -137,6 +137,10 @@ func c04Apply(cl *sim.Cluster, table string, addrs []string, ev c04Event, seq in
 			time.Sleep(down / 2)
 			cl.SetServer(addr, func(s *sim.ServerState) { s.Down = false })
 		}()
+	case "probekill":
+		cl.Lock()
+		r.KillAfterProbe += 1 + ev.Count%2
+		cl.Unlock()
 	case "reset":
 		cl.KillConns(addr)
 	case "dialdown":
@@ -169,7 +173,7 @@ func c04RunInBubble(c c04Case, concurrentInjector bool) (out Outcome) {
 	connFaults := false
 	for _, ev := range c.Events {
 		switch ev.Kind {
-		case "abort", "stop", "reset", "dialdown":
+		case "abort", "stop", "reset", "dialdown", "probekill":
 			connFaults = true
 		}
 	}
@@ -378,7 +382,7 @@ func c04Gen(t *rapid.T) c04Case {
 	for i := 0; i < ne; i++ {
 		ev := c04Event{
 			AtMS:   rapid.SampledFrom([]int{0, 1, 5, 20, 21, 40, 100, 500, 1000, 2000}).Draw(t, "at"),
-			Kind:   rapid.SampledFrom([]string{"move", "split", "merge", "transient", "transient", "abort", "stop", "reset", "dialdown", "metamove"}).Draw(t, "kind"),
+			Kind:   rapid.SampledFrom([]string{"move", "split", "merge", "transient", "transient", "abort", "stop", "reset", "dialdown", "metamove", "probekill"}).Draw(t, "kind"),
 			Region: rapid.IntRange(0, 5).Draw(t, "region"),
 			Server: rapid.IntRange(0, 3).Draw(t, "server"),
 		}
